@@ -3,7 +3,7 @@
    a rational is "n/d"; a quadratic integer is "a,b"; an operand that does not fit the integer type of
    the case makes the whole case "UNREPRESENTABLE" (the harness prints the same). *)
 let width_of = function
-  | "i64" -> i64 | "i128" -> i128 | "big" -> Big
+  | "i32" -> i32 | "i64" -> i64 | "i128" -> i128 | "big" -> Big
   | s -> failwith ("bad type " ^ s)
 
 exception Unrep
